@@ -179,6 +179,8 @@ struct SClient {
         size_t pos = 0;
         int epoch = 0;
         bool finalized = false;
+        int fragmode = 0;
+        size_t fragA = 0, fragB = 0, nfrag = 0;
         // objects
         uint8_t *ctx = nullptr;
         // mh/mur
@@ -287,6 +289,10 @@ struct StreamSim : Sim {
                         p.cfg[k + "api"] = (int64_t) (g.chance(1, 2) ? 0 : g.chance(2, 3) ? 1 : 2); // family symbols / isal_ API / deprecated API
                         p.cfg[k + "len"] = (int64_t) stream_len(g, kind, thorough);
                         p.cfg[k + "place"] = (int64_t) g.below(3);
+                        // swarm knob: 0 mixed fragment classes, 1 every fragment the same length, 2 two alternating lengths
+                        p.cfg[k + "fragmode"] = g.chance(2, 3) ? 0 : (int64_t) (1 + g.below(2));
+                        p.cfg[k + "fragA"] = (int64_t) (g.chance(1, 2) ? 1 + g.below(40) : 1 + g.below(2100));
+                        p.cfg[k + "fragB"] = (int64_t) (1 + g.below(300));
                         if (kind <= K_MUR)
                                 p.cfg[k + "fam"] = (int64_t) g.below(5);
                         else if (kind == K_ROLL) {
@@ -422,6 +428,8 @@ struct StreamSim : Sim {
                 case 10: n = rem; break;
                 default: n = o.c % (rem + 1); break;
                 }
+                if (c.fragmode && (o.b % 12) != 0)
+                        n = (c.fragmode == 2 && (c.nfrag++ & 1)) ? c.fragB : c.fragA;
                 return std::min(n, rem);
         }
 
@@ -587,6 +595,8 @@ struct StreamSim : Sim {
                         case 6: n = o.c % 64; break;
                         default: n = o.c % (rem + 1); break;
                         }
+                        if (c.fragmode && (o.b % 9) != 0)
+                                n = (c.fragmode == 2 && (c.nfrag++ & 1)) ? c.fragB : c.fragA;
                         n = std::min<uint64_t>(n, rem);
                         buf = e.mem.alloc(n, 1, place_of(o.d), nullptr, "rolling run buffer", R_INPUT, (size_t) ((o.d >> 2) % 64));
                         if (n)
@@ -819,6 +829,8 @@ struct StreamSim : Sim {
                 }
                 default: n = o.c % (rem + 1); break;
                 }
+                if (c.fragmode && (o.b % 10) != 0 && (o.b % 10) != 8)
+                        n = (c.fragmode == 2 && (c.nfrag++ & 1)) ? c.fragB : c.fragA;
                 n = std::min(n, rem);
                 if (c.nt && n != rem)
                         n = (n / 64) * 64; // non-final pieces must be multiples of 64
@@ -1007,6 +1019,9 @@ struct StreamSim : Sim {
                         std::string k = strfmt("c%d_", i);
                         c.kind = (int) (p.get((k + "kind").c_str()) % K_N);
                         c.api = g_force_family_api ? 0 : (int) p.get((k + "api").c_str());
+                        c.fragmode = (int) p.get((k + "fragmode").c_str());
+                        c.fragA = (size_t) std::max<int64_t>(1, p.get((k + "fragA").c_str(), 1));
+                        c.fragB = (size_t) std::max<int64_t>(1, p.get((k + "fragB").c_str(), 1));
                         Place pl = (Place) (p.get((k + "place").c_str()) % 3);
                         if (c.kind <= K_MUR) {
                                 c.fam = (int) (p.get((k + "fam").c_str()) % 5);
